@@ -73,6 +73,16 @@ pub trait Read: Sized {
 				&& (*final(self)).hit_eof() == (*old(self)).hit_eof(),
 			(*old(self)).rest().len() < 4 ==> res is Err && (*final(self)).hit_eof(),
 	{ unimplemented!() }
+	#[verifier::external_body]
+	fn read_i32<B>(&mut self) -> (res: std::result::Result<i32, IoError>)
+		requires (*old(self)).inv(),
+		ensures (*final(self)).inv(), (*final(self)).stable() == (*old(self)).stable(),
+			(*old(self)).rest().len() >= 4 ==> res is Ok && res->Ok_0 == be_i32((*old(self)).rest(), 0)
+				&& (*final(self)).rest() == skip((*old(self)).rest(), 4)
+				&& (*final(self)).consumed() == (*old(self)).consumed() + (*old(self)).rest().subrange(0, 4)
+				&& (*final(self)).hit_eof() == (*old(self)).hit_eof(),
+			(*old(self)).rest().len() < 4 ==> res is Err && (*final(self)).hit_eof(),
+	{ unimplemented!() }
 }
 
 // a `&mut R` is itself a reader (std: impl<R: Read + ?Sized> Read for &mut R)
